@@ -263,6 +263,15 @@ def monitor(case, res, shared):
         return ('empty-node-list', 'initialisation succeeded with no node to place tasks on')
     if len(nl) > res['requested_nodes']:
         return ('more-nodes-than-requested', '%d nodes offered, %d requested' % (len(nl), res['requested_nodes']))
+    if not cfg['nodes'] and res['cores_per_node'] and case['kind'] != 'fork':
+        # (Fork makes up its node list and needs the count before blocked cores are known: DESIGN.md 7.3)
+        # a pilot sized by cores / GPUs: the node count derived for it covers them with what a node can really give
+        short = res['requested_nodes'] * res['cores_per_node'] < cfg['cores'] or \
+                (res['gpus_per_node'] and res['requested_nodes'] * res['gpus_per_node'] < cfg['gpus'])
+        if short:
+            return ('derived-node-count-does-not-cover-the-pilot',
+                    '%d nodes of %d usable cores / %d usable GPUs for a pilot of %d cores / %d GPUs'
+                    % (res['requested_nodes'], res['cores_per_node'], res['gpus_per_node'], cfg['cores'], cfg['gpus']))
     idx = [n[1] for n in nl + al + sl]
     if len(set(idx)) != len(idx):
         return ('duplicate-node-index', str(idx))
